@@ -1259,7 +1259,9 @@ def run_deadline(res, exe):
     the timeout the device's own client carries, behind a net.Conn that records every deadline call, facing a reader that goes
     silent while the client keeps writing; and a scaled-down run that measures when the connection is given up"""
     T = KA_DOC["read_timeout_ms"]
-    reqs = [{"k": "dev", "writes": 5}, {"k": "scaled", "scale_ms": 400, "every_ms": 100, "budget_ms": 2400}]
+    GT = 2000
+    reqs = [{"k": "dev", "writes": 5, "pause_ms": 1500}, {"k": "scaled", "scale_ms": 400, "every_ms": 100, "budget_ms": 2400},
+            {"k": "gaps", "scale_ms": GT, "at_ms": [0, int(0.3 * GT), int(0.45 * GT), int(1.25 * GT)]}]
     rc, out, glog = vlib.run_harness(exe, "TestVerifC14Deadline", "\n".join(json.dumps(r) for r in reqs) + "\n", timeout=120, tag="_dl")
     if rc != 0 or len(out) != len(reqs):
         res.violation("harness-run", "Go harness (deadline observation) failed (rc=%s, %d/%d answers): %s" % (rc, len(out), len(reqs), glog[-1500:]),
@@ -1305,6 +1307,47 @@ def run_deadline(res, exe):
                       "= 2 x the %d ms KeepAlive interval" % (dev["silent_at_ms"], dev["written"], len(moved), "/".join(sorted({e["op"] for e in moved})),
                                                               moved[0]["delta_ms"], moved[0]["at_ms"], moved[-1]["at_ms"], T, KA_DOC["interval_ms"]),
                       dict(rp, observed=dict(dev, events=dev["events"][max(0, dev["mark"] - 4):dev["mark"] + 40])))
+    # (c) the timeout APPLIED is the configured one: at every Read call the read deadline in force leaves the whole timeout
+    #     (silence of up to T after ANY message is tolerated — not only "what is armed is now + T")
+    def short_reads(a, slack):
+        return [e for e in a["events"] if e["op"] == "Read" and (e.get("zero") or e["delta_ms"] < a["timeout_ms"] - slack)]
+    short = short_reads(dev, 1000)
+    if short:
+        e = short[0]
+        res.violation("read-timeout-applied-shorter-than-configured",
+                      "an llrp.Client with the device's timeout (%d ms): the reader sent a KeepAlive %d ms after the previous message; at the Read call "
+                      "with which the client then waited for the next message (%d ms) the read deadline in force was %s — a reader silent for less than "
+                      "the documented %d ms = 2 x the %d ms KeepAlive interval after that message is cut off (%d of %d Read calls short by more than 1000 ms)"
+                      % (dev["timeout_ms"], reqs[0]["pause_ms"], e["at_ms"], "none" if e.get("zero") else "only %d ms ahead" % e["delta_ms"], T,
+                         KA_DOC["interval_ms"], len(short), len([x for x in dev["events"] if x["op"] == "Read"])),
+                      dict(rp, observed=dict(dev, events=[x for x in dev["events"] if x["op"] in movers + ("Read", "ReadRet")][:80])))
+    # scaled: messages at 0, 0.3 T, 0.45 T, silence of 0.8 T, a message, then a full exchange: the connection must still be up and every
+    # Read must have had (nearly) the whole timeout ahead (timing: re-run alone, twice as slow, before it is judged)
+    gp = json.loads(out[2])
+    stats["gaps"] = dict(timeout_ms=gp["timeout_ms"], keepalives_at_ms=gp.get("sent_at_ms"), up_at_end=gp["up_at_end"],
+                         min_ahead_at_read_ms=min([e["delta_ms"] for e in gp["events"] if e["op"] == "Read" and not e.get("zero")] or [0]))
+    def gaps_bad(a):
+        return (not a["up_at_end"]) or a["dropped_ms"] >= 0 or bool(short_reads(a, int(0.15 * a["timeout_ms"]))) or bool(a.get("note"))
+    if gaps_bad(gp):
+        G2 = 2 * GT
+        again = {"k": "gaps", "scale_ms": G2, "at_ms": [0, int(0.3 * G2), int(0.45 * G2), int(1.25 * G2)]}
+        rc2, out2, _ = vlib.run_harness(exe, "TestVerifC14Deadline", json.dumps(again) + "\n", timeout=120, tag="_dl3")
+        g2 = json.loads(out2[0]) if rc2 == 0 and out2 else None
+        if g2 is None:
+            res.violation("harness-run", "deadline scenario (gaps) re-run failed", dict(kind="harness"), False)
+        elif gaps_bad(g2):
+            sh = short_reads(g2, int(0.15 * G2))
+            res.violation("connection-reset-within-read-timeout" if not g2["up_at_end"] else "read-timeout-applied-shorter-than-configured",
+                          "llrp.Client with read timeout T = %d ms; the reader sent KeepAlives at %s ms (0, 0.3 T, 0.45 T, then a silence of 0.8 T < T): %s; "
+                          "%d Read call(s) were made with less than 0.85 T of read deadline ahead%s. (First run, T = %d ms: up at end %s, dropped at %s ms.) "
+                          "Documented: the 30 s KeepAlive is half of the read timeout the service applies — silence shorter than the timeout never "
+                          "resets the connection." % (
+                              G2, g2.get("sent_at_ms"), "the client gave the connection up at %d ms, before the next message" % g2["dropped_ms"]
+                              if g2["dropped_ms"] >= 0 else ("the connection was still up" if g2["up_at_end"] else "no exchange was possible afterwards"),
+                              len(sh), " (e.g. %d ms ahead at %d ms)" % (sh[0]["delta_ms"], sh[0]["at_ms"]) if sh else "", GT, gp["up_at_end"], gp["dropped_ms"]),
+                          dict(rp, requests=[reqs[2], again], observed=dict(
+                              first=dict(gp, events=[x for x in gp["events"] if x["op"] in movers + ("Read",)][:60]),
+                              second=dict(g2, events=[x for x in g2["events"] if x["op"] in movers + ("Read",)][:60]))))
     # scaled-down measurement: timeout 400 ms, a message written every 100 ms: the connection must be given up (timing: re-run alone,
     # slower, before it is judged)
     if sc["dropped_ms"] < 0:
@@ -1556,7 +1599,9 @@ def run(tier, seed, replay=None):
                                "coq/Driver/Commands.v under two schedules" % (NDEV, conc_rep)),
         read_timeout_on_connection=dict(dl_stats, rule="llrp.Client with the timeout of the device's own client behind a recording net.Conn, reader silent, "
                                         "client writing: calls that move the read deadline while Read is parked (none allowed), value of the armed read "
-                                        "deadlines (60 s = 2 x 30 s); scaled run (400 ms, a write every 100 ms): the connection is given up"),
+                                        "deadlines (60 s = 2 x 30 s); read deadline in force at EVERY Read call >= call + T - slack (a KeepAlive 1.5 s "
+                                        "after the previous message); scaled runs: 400 ms with a write every 100 ms: the connection is given up; "
+                                        "2000 ms with KeepAlives at 0 / 0.3 T / 0.45 T / 1.25 T: still up, every Read had >= 0.85 T ahead"),
         samples=samples, input_distribution=dist, traces_validated_against_impl=evals + conc_stats.get("commands", 0),
         extreme_documents_rejected_by_encoder=encoder_rejected,
         constants_from_running_code=k, connections=conn_log, cases_per_connection=per_conn, model_constants=consts, model_variant_votes=variant_votes,
